@@ -162,6 +162,28 @@ def run_post(ck):
     ck.add_samples([{"post": {k: c[k] for k in ("from_ns", "to_ns", "step_ns", "dur_ns")}, "in": c["in"][:2], "out": (c["out"] or [])[:1]} for c in cases[:1]])
 
 
+RE_SELECT = re.compile(r"(?:^|[ (])SELECT ")
+
+
+def stale_fingerprint_grouping(sql):
+    """walks the selects of a statement printed with its WITH list (data-flow order): True when a select that applies a
+    drop filter to the labels (mapFilter((k,v) -> k!=.. / (k, v)!=(..)) without re-fingerprinting is followed, with no
+    select computing cityHash64(...) as fingerprint in between, by a select that groups by fingerprint and timestamp"""
+    if not sql.startswith("WITH"):
+        return False
+    stale = False
+    for piece in RE_SELECT.split(sql)[1:]:
+        k = piece.find(" FROM ")
+        cols, rest = (piece[:k], piece[k:]) if k >= 0 else (piece, "")
+        if re.search(r"cityHash64\(.*?\) as (new_)?fingerprint", cols):
+            stale = False
+        elif "mapFilter((k,v) -> k!=" in cols or "mapFilter((k,v) -> (k, v)!=" in cols:
+            stale = True
+        if stale and re.search(r"GROUP BY (fingerprint, timestamp_ns|timestamp_ns, fingerprint)", rest):
+            return True
+    return False
+
+
 def witness_rows(c, why):
     return {"query": c["query"], "ctx": c["ctx"], "why": why}
 
@@ -244,6 +266,20 @@ def run_sql(ck):
                       "case": witness_rows(worst, "a select with HAVING and without GROUP BY"), "sql": worst["sql"][0][:3000],
                       "failing_input": "any database: the statement is not valid ClickHouse SQL (documentation of the HAVING clause)",
                       "replay": "harness logqlsql --cases <file with this case>"})
+    # ---- spec oracle 1e: the series key of a range aggregation is the label set the pipeline leaves (finding drop-keeps-fingerprint)
+    st_hits = [c for c in allc if c.get("sql") and stale_fingerprint_grouping(c["sql"][0])]
+    ck.extra["drop_stale_fingerprint_hits"] = len(st_hits)
+    if st_hits:
+        worst = min(st_hits, key=lambda c: len(c["query"]))
+        if "drop-keeps-fingerprint" in known:
+            ck.report_known("drop-keeps-fingerprint", "%s (%d of %d planned queries): the select of the drop stage rewrites labels and keeps fingerprint, the range aggregation groups by it" % (
+                worst["query"], len(st_hits), sum(1 for c in allc if c.get("sql"))))
+        else:
+            ck.obligation("spec oracle: a range aggregation groups by a fingerprint of the labels the pipeline leaves", False, worst["query"])
+            ck.violation({"property": "C08", "part": "output_series_are_grouped_label_sets", "kind": "a drop stage rewrites the labels and keeps the fingerprint; the range aggregation groups by the stale fingerprint",
+                          "case": witness_rows(worst, "select with mapFilter((k,v) -> k!=...) as labels and no cityHash64(...) as fingerprint before GROUP BY fingerprint, timestamp_ns"), "sql": worst["sql"][0][:3000],
+                          "failing_input": "two streams that differ only in a dropped label, one line each in one window: two series with one label set instead of one (theorem logql_metric_correct_from_stored_data_refuted)",
+                          "replay": "harness logqlsql --cases <file with this case>"})
     # ---- spec oracle 2: aggregate fragments read back from the implementation's SQL
     lra, agg = observations(allc)
     lv, av, cnt = eval_observations(ck, lra, agg)
